@@ -40,7 +40,7 @@ func judgeC04(pc *parserCase, verbose bool) []string {
 }
 
 type c04Info struct {
-	inDomain, asValue, stoppedBefore, afterOptional, afterGreedy, tailHasKnown bool
+	inDomain, asValue, stoppedBefore, afterOptional, afterGreedy, tailHasKnown, laterTerminator bool
 }
 
 func c04Judge(def *ph.Def, pre, tail []string, verbose bool) ([]string, c04Info) {
@@ -66,6 +66,13 @@ func c04Judge(def *ph.Def, pre, tail []string, verbose bool) ([]string, c04Info)
 	}
 	// is the `--` at position len(pre) the still-missing mandatory value of the option before it?
 	if ex.DashDashAsValue && ex.TermIdx != len(pre) {
+		if ex.TermIdx > len(pre) {
+			// ... and a later `--` is the first one that is not a mandatory value: the statement applies to that one
+			msgs, in2 := c04Judge(def, argv[:ex.TermIdx], argv[ex.TermIdx+1:], false)
+			in2.asValue = true
+			in2.laterTerminator = true
+			return msgs, in2
+		}
 		info.asValue = true
 		return nil, info
 	}
@@ -133,7 +140,7 @@ func init() {
 		ID:        "C04",
 		QuickSecs: 120, ThoroSecs: 1500,
 		Rule: "input-space exploration, differential: argv = pre ++ [`--`] ++ tail for every pre of length <= Lp over 14 tokens (positional, flag, valued / optional-valued / greedy multi-valued / map options and their values, command, unknown option) and every tail of length <= Lt over 8 tokens " +
-			"(known options, command name, further `--`, unknown and short options) in all 18 configurations; unless the reference model says the `--` is the still-missing mandatory value of the option before it, Parse(argv) must equal Parse(pre) in every option value, Called, warning and dispatch target and return remaining(pre) ++ tail; " +
+			"(known options, command name, further `--`, unknown and short options) in all 18 configurations; unless the reference model says the `--` is the still-missing mandatory value of the option before it (then the statement is applied to the next `--` of the tail), Parse(argv) must equal Parse(pre) in every option value, Called, warning and dispatch target and return remaining(pre) ++ tail; " +
 			"distinct_nontrivial = distinct in-domain (configuration, pre, tail) cases",
 		Assume: []string{"pre longer than Lp / tail longer than Lt and other tokens are not covered"},
 		Run: func(c *RunCtx) {
@@ -177,6 +184,9 @@ func init() {
 						msgs, info := c04Judge(def, pre, tail, false)
 						if info.asValue {
 							res.count("cases_where_terminator_is_a_mandatory_value", 1)
+						}
+						if info.laterTerminator && info.inDomain {
+							res.count("in_domain_terminator_after_a_dashdash_taken_as_mandatory_value", 1)
 						}
 						if info.inDomain {
 							res.count("in_domain_cases", 1)
@@ -226,6 +236,6 @@ func init() {
 			res.Distinct = res.Counters["in_domain_cases"]
 		},
 		Replay:     replayParser,
-		GateCounts: []string{"in_domain_cases", "in_domain_terminator_after_optional_value_option", "in_domain_terminator_after_multi_value_option_or_value", "in_domain_tail_with_known_option_or_command", "cases_where_terminator_is_a_mandatory_value"},
+		GateCounts: []string{"in_domain_cases", "in_domain_terminator_after_optional_value_option", "in_domain_terminator_after_multi_value_option_or_value", "in_domain_tail_with_known_option_or_command", "cases_where_terminator_is_a_mandatory_value", "in_domain_terminator_after_a_dashdash_taken_as_mandatory_value"},
 	})
 }
